@@ -1338,6 +1338,10 @@ def rule_R24_inline(unit, rel, text, ctx):
                     binds.append(('vx_self', None, recv))
                 else:
                     amp = '&mut ' if 'mut' in sp and '&' in sp else ('&' if '&' in sp else '')
+                    if amp == '&' and recv == 'self' and getattr(unit, 'cells', None):
+                        # R3 has turned the `&self` methods of this unit into `&mut self` ones (interior mutability erased):
+                        # the helper's receiver is the same object
+                        amp = '&mut '
                     flip = getattr(unit, 'inline_flip', False)
                     simple = re.match(r'^[A-Za-z_]\w*$', recv) is not None
                     if recv == 'self' or recv.startswith('&') or (simple and not flip) or (not simple and flip):
